@@ -268,6 +268,11 @@ type Result struct {
 	Err error
 }
 
+// JournalCases makes Check write every case to the journal file (VERIF_JOURNAL)
+// before executing it, so that a case that kills the process can be recovered
+// by the driver.
+var JournalCases bool
+
 // ReplayFile is the on-disk form of a failing case.
 type ReplayFile struct {
 	Property string          `json:"property"`
@@ -303,6 +308,11 @@ func Check[C any](t *testing.T, name string, gen func(*rapid.T) C, exec func(C) 
 	rapid.Check(t, func(rt *rapid.T) {
 		c := gen(rt)
 		rec.Eval()
+		if JournalCases {
+			if jp := os.Getenv("VERIF_JOURNAL"); jp != "" {
+				writeReplay(jp, rec.Property, name, c, fmt.Errorf("the test process died while executing this case"))
+			}
+		}
 		res := exec(c)
 		if res.NonTrivial {
 			rec.NonTrivial(Fingerprint(c))
